@@ -150,12 +150,14 @@ pub fn document(id: u64, input: &str, cfg: &TermCfg) -> Result<J, String> {
     Ok(o)
 }
 
-pub const EXTRA: [&str; 20] = [
+pub const EXTRA: [&str; 22] = [
     "&", "<", ">", "\"", "'", "]]>", "&amp;", "<tspan>", "</text>", "\u{6f22}\u{5b57}", "\u{200b}", "e\u{301}", "\u{1f600}", "  ", "\u{a0}", "&#10;",
     // a line ending with two carriage returns: one belongs to the line feed, the other stays in the line
     "\r\r\n", "y\r\r\n",
     // a complete SGR sequence with a line break / tab inside it (executed as text in the style so far)
     "\x1b[3\n1m", "\x1b[4\t;32m",
+    // a colon-form colour cut short, followed by a complete colour in the same sequence
+    "\x1b[38:2:255:0;48;2;0;0;255m", "\x1b[4;48:2:9;58:2:1:2:3m",
 ];
 
 pub fn gen_input(seed: u64, i: u64, items: u64) -> String {
